@@ -542,9 +542,13 @@ func (in *Inst) instr(ins ssa.Instruction, st *State) {
 				e.note("map reads return arbitrary values (maps are not modelled)")
 			}
 		}
+		if _, ok := x.X.Type().Underlying().(*types.Map); ok {
+			in.pseudoEvent("maplookup", x, []ssa.Value{x.X, x.Index}, st)
+		}
 		in.vals[x] = e.freshVal(in.name(x), x.Type(), st)
 	case *ssa.MapUpdate:
 		e.note("map updates are not modelled")
+		in.pseudoEvent("mapupdate", x, []ssa.Value{x.Map, x.Key, x.Value}, st)
 	case *ssa.If, *ssa.Jump:
 	case *ssa.Return:
 		var rs []Val
